@@ -115,6 +115,9 @@ func RunWorker(a WorkerArgs) int {
 		}
 		r := newReporter(a.Seed, u, j, skip)
 		c.RunUnit(a.Tier, u, r)
+		for _, h := range UnitEndHooks {
+			h(r)
+		}
 		rec := r.finish()
 		if err := enc.Encode(&rec); err != nil {
 			fmt.Fprintf(os.Stderr, "encode: %v\n", err)
@@ -126,6 +129,10 @@ func RunWorker(a WorkerArgs) int {
 	out.Flush()
 	return 0
 }
+
+// UnitEndHooks run after every unit of a worker (e.g. to publish statistics of
+// the reference evaluator as counters).
+var UnitEndHooks []func(r *Reporter)
 
 // Describe returns the description of case idx of unit u without executing
 // anything.
